@@ -910,6 +910,77 @@ def run(ctx: Ctx, a_ok: bool):
             ctx.bump("op:" + o[0])
     run_standard(ctx, cases, impl_fn, coq_expr, compare, IMPORTS, candidates, sig_fn=sig_fn, call_fn=call_fn,
                  broken="correspondence DistModel.trace vs lymph.diagnosis_times (Distribution / Composite)", shard=12)
+    free_family_relation(ctx)
+
+
+def _free_family(support, s=1.0, c=0.0):
+    """a user function outside the modelled families: any real parameters are valid (weights 1 + (s t + c)^2 > 0)"""
+    return 1.0 + (s * support + c) ** 2
+
+
+def free_family_relation(ctx: Ctx):
+    """Implementation-only relation for parameter values the modelled families reject (negative numbers, R6-C18-m1:
+    hash(-1) == hash(-2) in CPython): after every update the pmf equals the user function evaluated on the support by
+    the harness itself and normalised -- on one object, on its copies, and per T-stage of a model."""
+    from lymph import models
+    from lymph.diagnosis_times import Distribution
+    rng = ctx.rng
+    vals = [-2, -1, -2.0, -1.0, 0, 0.0, 1, 2, 0.5, -0.5, 3.0]
+
+    def oracle(maxt, kw):
+        w = _free_family(np.arange(maxt + 1), **kw)
+        return w / w.sum()
+
+    def differs(p, q):
+        return len(p) != len(q) or bool(np.max(np.abs(np.asarray(p, float) - q)) > 1e-9)
+    n = 40 if ctx.tier == "quick" else 300
+    for k in range(n):
+        maxt = rng.randint(1, 4)
+        hist, bad = [], None
+        if k % 2 == 0:
+            kw = {"s": rng.choice(vals), "c": rng.choice(vals)}
+            d = Distribution(_free_family, max_time=maxt, **kw)
+            hist.append(["Distribution(free_family)", maxt, dict(kw)])
+            for _ in range(rng.randint(2, 5)):
+                if differs(d.pmf, oracle(maxt, kw)):
+                    bad = {"actual": [float(x) for x in d.pmf], "expected": oracle(maxt, kw).tolist()}
+                    break
+                upd = {name: rng.choice(vals) for name in rng.sample(["s", "c"], rng.randint(1, 2))}
+                if rng.random() < 0.5:
+                    d.set_params(**upd)
+                    hist.append(["set_params", upd])
+                else:
+                    upd = {"s": upd.get("s", kw["s"])}
+                    d.set_params(upd["s"])
+                    hist.append(["set_params", [upd["s"]]])
+                kw.update(upd)
+            if bad is None and differs(d.pmf, oracle(maxt, kw)):
+                bad = {"actual": [float(x) for x in d.pmf], "expected": oracle(maxt, kw).tolist()}
+        else:
+            m = models.Bilateral.binary(GRAPH, uni_kwargs={"max_time": maxt}) if k % 4 == 1 else models.Unilateral.binary(GRAPH, max_time=maxt)
+            kws = {t: {"s": rng.choice(vals), "c": rng.choice(vals)} for t in ("early", "late")}
+            for t, kw in kws.items():
+                m.set_distribution(t, Distribution(_free_family, max_time=maxt, **kw))
+            hist.append(["set_distribution per T-stage", maxt, {t: dict(v) for t, v in kws.items()}])
+            for _ in range(rng.randint(1, 3)):
+                t = rng.choice(["early", "late"])
+                upd = {"s": rng.choice(vals)}
+                m.set_distribution_params(**{f"{t}_s": upd["s"]})
+                kws[t].update(upd)
+                hist.append(["set_distribution_params", {f"{t}_s": upd["s"]}])
+            leaves = [m] if k % 4 != 1 else [m.ipsi, m.contra]
+            for leaf in leaves:
+                for t in ("early", "late"):
+                    if bad is None and differs(leaf.get_distribution(t).pmf, oracle(maxt, kws[t])):
+                        bad = {"t_stage": t, "actual": [float(x) for x in leaf.get_distribution(t).pmf],
+                               "expected": oracle(maxt, kws[t]).tolist()}
+        ctx.bump("free-family history")
+        if bad is not None:
+            ctx.violation("pmf of a parametric distribution differs from its function evaluated on the support and normalised",
+                          {"history": hist, "function": "weights(t) = 1 + (s*t + c)**2 (harness.props.c18._free_family)", **bad,
+                           "call": "replay the history on lymph.diagnosis_times.Distribution / set_distribution_params; compare .pmf"},
+                          {"class": "Distribution", "call": "pmf", "family": "user function"}, found_input=True)
+            return
 
 
 def fixed_cases():
